@@ -292,6 +292,20 @@ def rebalance_over_time(chk, pid):
     host = "RebalanceOverTime.__call__"
     chk.site()
     stores = [e for e in S.events if e.kind == "store" and e.loops and e.base[0] == "dict"]
+    if not stores:
+        # the targets built as one dict comprehension (or an accumulation loop the engine reads as one) handed to temp['weights']
+        class _Site(object):
+            pass
+        for s_ in S.events:
+            v = s_.value if s_.kind == "store" else None
+            if v is not None and v[0] == "comp" and v[1] == "dict" and v[2][0] == "tuple" and len(v[2]) == 3 and s_.base[0] == "fld" and s_.base[2] == "temp":
+                e = _Site()
+                e.kind, e.index, e.value, e.where, e.seq, e.heap, e.epoch = "store", v[2][1], v[2][2], s_.where, s_.seq, s_.heap, s_.epoch
+                e.guard, e.graw = tuple(s_.guard) + tuple(v[4]), s_.graw
+                lp = _Site()
+                lp.iter = v[3]
+                e.loops = (lp,)
+                stores.append(e)
     chk.need(stores, "%s no longer builds the step targets" % host)
     e = stores[-1]
     cname = e.index
